@@ -300,3 +300,99 @@ func VerifH_C06_residue() {
 	}
 	vp.Cover("ALL.c06.residue.later", first >= 1)
 }
+
+// Overloaded methods (the TyOverloadMethod arm): same self-composition on a receiver value.
+func VerifH_C06_methods() {
+	ncand := 2 + vp.Choose("ncand", 2)
+	pts := verifOvParamTypes()
+	type cand struct {
+		param  types.Type
+		result types.Type
+	}
+	cands := make([]cand, ncand)
+	for i := range cands {
+		cands[i] = cand{pts[vp.Choose("p"+string(rune('0'+i)), len(pts))], verifOvResults[i]}
+	}
+	spec := verifChooseArg("x")
+	ptrRecv := vp.Thorough() && vp.Choose("ptrrecv", 2) == 1
+	mkType := func(pkg *Package) *types.Named {
+		return types.NewNamed(types.NewTypeName(token.NoPos, pkg.Types, "T", nil), types.NewStruct(nil, nil), nil)
+	}
+	mkMethod := func(pkg *Package, t *types.Named, name string, c cand) *types.Func {
+		var rt types.Type = t
+		if ptrRecv {
+			rt = types.NewPointer(t)
+		}
+		recv := types.NewVar(token.NoPos, pkg.Types, "recv", rt)
+		sig := types.NewSignatureType(recv, nil, nil, types.NewTuple(types.NewParam(token.NoPos, pkg.Types, "a", c.param)), types.NewTuple(types.NewParam(token.NoPos, pkg.Types, "", c.result)), false)
+		m := types.NewFunc(token.NoPos, pkg.Types, name, sig)
+		t.AddMethod(m)
+		return m
+	}
+	call := func(pkg *Package, t *types.Named, name string) (r verifCallResult) {
+		cb := pkg.CB()
+		var recvT types.Type = t
+		if ptrRecv {
+			recvT = types.NewPointer(t)
+		}
+		arg := verifMkArg("a0", spec)
+		var ret *Element
+		class := vp.Try(func() {
+			cb.Val(verifNonConst("v", recvT)).MemberVal(name, 0).Val(arg).Call(1)
+			ret = cb.InternalStack().Pop()
+		})
+		r.fault = class == vp.FaultPanic
+		r.ok = class == vp.NoPanic
+		if r.ok {
+			r.retType = ret.Type
+			if c, isCall := ret.Val.(*ast.CallExpr); isCall {
+				r.callee = verifExprKey(c.Fun)
+				for _, a := range c.Args {
+					r.argKeys = append(r.argKeys, verifExprKey(a))
+				}
+			}
+		}
+		return
+	}
+	single := make([]verifCallResult, ncand)
+	for i, c := range cands {
+		p := verifNewPkg()
+		t := mkType(p)
+		name := "m__" + string(rune('0'+i))
+		mkMethod(p, t, name, c)
+		single[i] = call(p, t, name)
+		vp.Assert("C17.c06.methods.single.nofault", !single[i].fault)
+	}
+	pkg := verifNewPkg()
+	t := mkType(pkg)
+	var ms []types.Object
+	for i, c := range cands {
+		ms = append(ms, mkMethod(pkg, t, "m__"+string(rune('0'+i)), c))
+	}
+	NewOverloadMethod(t, token.NoPos, pkg.Types, "m", ms...)
+	fam := call(pkg, t, "m")
+	vp.Assert("C17.c06.methods.family.nofault", !fam.fault)
+	first := -1
+	for i := range single {
+		if single[i].ok {
+			first = i
+			break
+		}
+	}
+	if first < 0 {
+		vp.Assert("C06.methods.none.rejected", !fam.ok)
+		return
+	}
+	vp.Assert("C06.methods.first.accepted", fam.ok)
+	if !fam.ok {
+		return
+	}
+	vp.Assert("C06.methods.first.callee", fam.callee == single[first].callee)
+	vp.Assert("C06.methods.first.rettype", types.Identical(fam.retType, single[first].retType))
+	same := len(fam.argKeys) == len(single[first].argKeys)
+	for i := 0; same && i < len(fam.argKeys); i++ {
+		same = fam.argKeys[i] == single[first].argKeys[i]
+	}
+	vp.Assert("C06.methods.noresidue.args", same)
+	vp.Cover("ALL.c06.methods.later", first >= 1)
+}
